@@ -43,6 +43,21 @@ fn main() {
         }
         i += 1;
     }
+    if let Some(rp) = &replay {
+        if let Ok(t) = std::fs::read_to_string(rp) {
+            if let Ok(v) = serde_json::from_str::<serde_json::Value>(&t) {
+                if let Some(s) = v.get("seed").and_then(|x| x.as_u64()) {
+                    seed = s;
+                }
+                if let Some(t) = v.get("tier").and_then(|x| x.as_str()) {
+                    tier = if t == "thorough" { Tier::Thorough } else { Tier::Quick };
+                }
+            }
+        } else {
+            eprintln!("cannot read replay file {}", rp.display());
+            std::process::exit(2);
+        }
+    }
     let verif_dir = PathBuf::from(std::env::var("ASEMON_VERIF_DIR").unwrap_or_else(|_| "/verif".into()));
     let repo_dir = PathBuf::from(std::env::var("ASEMON_REPO").unwrap_or_else(|_| "/repo".into()));
     install_panic_hook();
